@@ -300,7 +300,7 @@ Proof.
 Qed.
 
 (* ================= ChannelSink ================= *)
-Open Scope Z_scope.
+Local Open Scope Z_scope.
 
 Lemma omin_le a b : omin a b <= b.
 Proof. destruct a; cbn; lia. Qed.
